@@ -118,6 +118,8 @@ def plan(tier, seed):
         nrand = 640
     for i in range(nrand):
         cases.append({"kind": "random", "seed": seed, "i": i, "n": 400})
+    # the repository's own test-suite as a workload under monitor M9 (vf/mon/pytest_plugin.py)
+    cases.append({"kind": "suite", "tier": tier, "timeout": 3300})
     return cases
 
 
@@ -303,6 +305,10 @@ def new_stats():
 
 
 def run_case(case):
+    if case.get("kind") == "suite":
+        from .. import suite
+
+        return suite.case(['charge-consistent'], case["tier"])
     stats = new_stats()
     viols = {}
     nontrivial = 0
